@@ -51,6 +51,7 @@ type c19Shared struct {
 	// function ids 100+f run bitmap function f on it, so that the goroutines of one batch call the same
 	// function with DIFFERENT arguments at the same time (hidden scratch state then shows as a wrong answer)
 	alt *c19Shared
+	pos []int32 // the 1-bit positions of words (shared input of the builders)
 }
 
 func c19AltWords(words []uint64) []uint64 {
@@ -67,6 +68,7 @@ func c19BuildBitmap(sh *c19Shared) {
 	sh.r128 = bitmap.IndexRank128(sh.words)
 	sh.s32 = bitmap.IndexSelect32(sh.words)
 	sh.s32b, sh.r64b = bitmap.IndexSelect32R64(sh.words)
+	sh.pos = bitmap.ToArray(sh.words)
 }
 
 var c19Widths = []int{1, 2, 4, 8}
@@ -99,10 +101,10 @@ func c19Build(words []uint64, tsize int32, keys []string) *c19Shared {
 // c19Derived renders everything that is derived from the primary inputs and shared between the goroutines.
 func (sh *c19Shared) derived() string {
 	var b strings.Builder
-	b.WriteString(I32s(sh.r64) + I32s(sh.r128) + I32s(sh.s32) + I32s(sh.s32b) + I32s(sh.r64b))
+	b.WriteString(I32s(sh.r64) + I32s(sh.r128) + I32s(sh.s32) + I32s(sh.s32b) + I32s(sh.r64b) + I32s(sh.pos))
 	if sh.alt != nil {
 		a := sh.alt
-		b.WriteString(U64s(a.words) + I32s(a.r64) + I32s(a.r128) + I32s(a.s32) + I32s(a.s32b) + I32s(a.r64b))
+		b.WriteString(U64s(a.words) + I32s(a.r64) + I32s(a.r128) + I32s(a.s32) + I32s(a.s32b) + I32s(a.r64b) + I32s(a.pos))
 	}
 	b.WriteString(ByteSlices(sh.kb) + ByteSlices(sh.bs))
 	for _, n := range c19Widths {
@@ -150,6 +152,8 @@ var c19Names = map[int]string{
 	25: "bmtree.PathOf", 26: "bmtree.PathsOf",
 	30: "bitstr.Cmp", 31: "bitstr.CmpUpto", 32: "bitstr.StrCmpUpto", 33: "bitstr.Len", 34: "bitstr.New",
 	40: "bitword.FromStr", 41: "bitword.ToStr", 42: "bitword.Get", 43: "bitword.FirstDiff", 44: "bitword.FromStrs", 45: "bitword.ToStrs",
+	// every goroutine OWNS what it builds, the inputs are shared (widening: Spec/Ownership.v)
+	60: "bitmap.Of", 61: "bitmap.Builder", 62: "bitmap.TailBitmap",
 	50: "sigbits.FirstDiffBits", 51: "sigbits.ShardByPrefix", 52: "sigbits.CountPrefixes", 53: "sigbits.New",
 }
 
@@ -242,6 +246,36 @@ func c19Do(sh *c19Shared, c c19Call) string {
 		return ByteSlices(bitword.BitWord[int(c.p1)].FromStrs(sh.keys))
 	case 45:
 		return Strs(bitword.BitWord[int(c.p1)].ToStrs(sh.fs[int(c.p1)]))
+	case 60:
+		return U64s(bitmap.Of(sh.pos, int32(64*len(sh.words))))
+	case 61:
+		// a Builder of this goroutine alone: the positions below 64*p1 in one Extend, the others by Set
+		b := bitmap.NewBuilder(int32(64 * len(sh.words)))
+		cut := 0
+		for cut < len(sh.pos) && sh.pos[cut] < 64*i1 {
+			cut++
+		}
+		b.Extend(sh.pos[:cut], 64*i1)
+		for _, p := range sh.pos[cut:] {
+			b.Set(p, 1)
+		}
+		return L(U64s(b.Words), I32(b.Offset))
+	case 62:
+		// a TailBitmap of this goroutine alone, set in an order that depends on p1, compacted as it goes
+		tb := bitmap.NewTailBitmap(0)
+		n := len(sh.pos)
+		for k := 0; k < n; k++ {
+			tb.Set(int64(sh.pos[(k+int(c.p1))%n]))
+		}
+		tb.Compact()
+		var probe []string
+		for _, p := range sh.pos {
+			probe = append(probe, U(tb.Get1(int64(p))))
+			if len(probe) >= 8 {
+				break
+			}
+		}
+		return L(I(tb.Offset), U64s(tb.Words), L(probe...))
 	case 50:
 		return I32s(sigbits.FirstDiffBits(sh.keys))
 	case 51:
@@ -368,7 +402,7 @@ func (x *c19Gen) n() int { return 64 * len(x.words) }
 
 // one random in-domain call of function fid (ok=false: no in-domain argument exists for these inputs)
 // bitmap functions that can run on the second shared bitmap (function id + 100)
-var c19AltOK = map[int]bool{1: true, 2: true, 3: true, 4: true, 5: true, 6: true, 7: true, 8: true, 9: true,
+var c19AltOK = map[int]bool{60: true, 61: true, 62: true, 1: true, 2: true, 3: true, 4: true, 5: true, 6: true, 7: true, 8: true, 9: true,
 	11: true, 12: true, 13: true, 14: true, 15: true, 16: true, 17: true, 18: true, 24: true}
 
 func (x *c19Gen) call(fid int) (c19Call, bool) {
@@ -419,7 +453,14 @@ func (x *c19Gen) callOn(fid int) (c19Call, bool) {
 	case 7:
 		f := r.Intn(n + 1)
 		c.p1, c.p2 = uint64(f), uint64(r.Range(f, n))
-	case 8, 15, 16, 17, 18, 24, 50, 53:
+	case 8, 15, 16, 17, 18, 24, 50, 53, 60:
+	case 61:
+		c.p1 = uint64(r.Intn(len(x.words) + 1))
+	case 62:
+		if x.ones == 0 {
+			return c, false
+		}
+		c.p1 = uint64(r.Intn(x.ones))
 	case 9:
 		w := r.Pick(1, 2, 4, 8, 16, 32, 64)
 		c.p1, c.p2 = uint64(r.Intn(n/w)), uint64(w)
@@ -642,8 +683,14 @@ func genC19(g *Gen) {
 		add(3, uint64(k))
 		add(4, uint64(k))
 	}
-	for _, f := range []int{8, 15, 16, 17, 18, 24, 50, 53} {
+	for _, f := range []int{8, 15, 16, 17, 18, 24, 50, 53, 60} {
 		add(f)
+	}
+	for k := 0; k <= len(x.words); k++ {
+		add(61, uint64(k))
+	}
+	for k := 0; k < x.ones; k++ {
+		add(62, uint64(k))
 	}
 	for k := 0; k < nk; k++ {
 		for from := 0; from <= 8*len(x.keys[k])+8; from++ {
@@ -739,8 +786,14 @@ func genC19(g *Gen) {
 			alt(3, uint64(k))
 			alt(4, uint64(k))
 		}
-		for _, f := range []int{8, 15, 16, 17, 18, 24} {
+		for _, f := range []int{8, 15, 16, 17, 18, 24, 60} {
 			alt(f)
+		}
+		for k := 0; k <= len(x.words2); k++ {
+			alt(61, uint64(k))
+		}
+		for k := 0; k < x.ones2; k += 5 {
+			alt(62, uint64(k))
 		}
 		for _, f := range []int{1, 2, 3, 4, 5, 6, 7, 9, 11, 12, 13, 14} {
 			r.shuffleCalls(all[f]) // a call on one bitmap next to a call on the other
@@ -811,7 +864,7 @@ func genC19(g *Gen) {
 		case 1: // one package
 			lo := r.Pick(1, 20, 30, 40, 50)
 			for _, f := range c19Fids {
-				if f >= lo && f < lo+10 || lo == 1 && f < 20 {
+				if f >= lo && f < lo+10 || lo == 1 && (f < 20 || f >= 60) {
 					pool = append(pool, f)
 				}
 			}
